@@ -313,6 +313,9 @@ func (g *fnGen) retry(ob *Obligation, base string, opt solveOpts) {
 	if ob.Status == "undecided" {
 		ob.SolverOut = strings.Join(outs, "; ")
 	}
+	if ob.Status != "discharged" && os.Getenv("GOCV_EXPLAIN") != "" && !ob.Cover {
+		ob.SolverOut += "; conjuncts: " + g.explain(ob, base, opt)
+	}
 	if !opt.keepFiles && ob.Status == "discharged" {
 		os.Remove(file)
 	}
@@ -373,4 +376,90 @@ func (g *fnGen) nameObligations() {
 			ob.Name = name
 		}
 	}
+}
+
+// splitAnd flattens the top-level conjunction of an SMT term.
+func splitAnd(t string) []string {
+	t = strings.TrimSpace(t)
+	if !strings.HasPrefix(t, "(and ") {
+		return []string{t}
+	}
+	var parts []string
+	depth, start := 0, -1
+	body := t[5 : len(t)-1]
+	for i := 0; i < len(body); i++ {
+		c := body[i]
+		switch {
+		case c == '|':
+			if start < 0 {
+				start = i
+			}
+			for i++; i < len(body) && body[i] != '|'; i++ {
+			}
+			if depth == 0 {
+				parts = append(parts, body[start:i+1])
+				start = -1
+			}
+		case c == '(':
+			if depth == 0 && start < 0 {
+				start = i
+			}
+			depth++
+		case c == ')':
+			depth--
+			if depth == 0 {
+				parts = append(parts, body[start:i+1])
+				start = -1
+			}
+		case c == ' ' || c == '\n':
+			if depth == 0 && start >= 0 {
+				parts = append(parts, body[start:i])
+				start = -1
+			}
+		default:
+			if start < 0 {
+				start = i
+			}
+		}
+	}
+	if start >= 0 {
+		parts = append(parts, body[start:])
+	}
+	var out []string
+	for _, p := range parts {
+		out = append(out, splitAnd(p)...)
+	}
+	return out
+}
+
+// explain (debugging aid, GOCV_EXPLAIN=1): which conjuncts of an undischarged goal fail on their own.
+func (g *fnGen) explain(ob *Obligation, base string, opt solveOpts) string {
+	var res []string
+	goal := ob.Goal
+	for i, c := range splitAnd(goal) {
+		ob.Goal = c
+		file := fmt.Sprintf("%s.ob%d.c%d.smt2", base, ob.seq, i)
+		os.WriteFile(file, []byte(g.script(ob, false)), 0o644)
+		ctx, cancel := context.WithTimeout(context.Background(), time.Duration(opt.timeoutMs)*time.Millisecond+5*time.Second)
+		out, _ := runSolver(ctx, solvers["z3-new"], file, opt.timeoutMs, nil)
+		cancel()
+		os.Remove(file)
+		r := "?"
+		for _, l := range strings.Split(out, "\n") {
+			l = strings.TrimSpace(l)
+			if l == "sat" || l == "unsat" || l == "unknown" || l == "timeout" {
+				r = l
+				break
+			}
+		}
+		if r != "unsat" {
+			cc := c
+			if len(cc) > 160 {
+				cc = cc[:160] + "..."
+			}
+			res = append(res, fmt.Sprintf("[%d %s] %s", i, r, cc))
+		}
+	}
+	ob.Goal = goal
+	return strings.Join(res, " || ")
 }
